@@ -41,6 +41,15 @@ def make_specs(ctx: Ctx, n):
 
 def run(ctx: Ctx) -> Result:
     res = Result(ctx.prop)
+    if ctx.thorough:
+        # (MC) the forward loop over several periods and every stochastic branch (spec/MC_Panel.tla): every completed period is
+        # an admissible step of the declarative transition relation Pipeline!SimStepOK -- period 0 holds the initial states, next
+        # states are the transitions evaluated at the agent's own row, a drawn label has positive probability in the row selected
+        # by that agent's period-t variables
+        from ..unitlib import mc_or_die
+
+        mc = mc_or_die("MC_Panel", "MC_Panel_quick.cfg", workers=16)
+        res.merge_cov(states=mc["distinct"], transitions=mc["generated"], mc_states=mc["distinct"])
     specs = make_specs(ctx, ctx.n(96, 1400))
     run_pipeline(ctx, res, specs, nontrivial=nontrivial)
     finalize_cov(res, "seeded random models, 6 strata (one-hot transition rows with dependencies listed in "
